@@ -174,7 +174,11 @@ func (r FileReplacer) Replace(d data.Data, cl Changelog) (*ast.File, error) {
 		return nil, err
 	}
 
-	for _, m := range fd.Matches {
+	// Matches are recorded in pre-order. Replace them innermost-first so
+	// that a replacement made inside a node is still in place when that
+	// node (or the list holding it) is itself rebuilt.
+	for i := len(fd.Matches) - 1; i >= 0; i-- {
+		m := fd.Matches[i]
 		v := reflect.Indirect(reflect.ValueOf(m.parent)).FieldByName(m.name)
 		if !v.IsValid() {
 			// This is a bug in our code.
